@@ -49,7 +49,11 @@ pub fn catch<R>(f: impl FnOnce() -> R) -> Result<R, String> {
 /// used as a narrow signature.
 pub fn panic_site(msg: &str) -> String {
     let loc = msg.rsplit(" @ ").next().unwrap_or(msg);
-    let loc = match loc.find("/src/") {
+    if loc.starts_with("src/") {
+        // relative path: the harness crate itself
+        return format!("harness/{loc}");
+    }
+    let loc = match loc.rfind("/src/") {
         Some(i) => {
             // keep crate directory name + path
             let head = &loc[..i];
